@@ -194,6 +194,13 @@ func (g *Gen) Next() Case {
 	}
 	m := g.pickMsg()
 	g.entropy++
+	// every 23rd transaction: a transfer FROM the account whose stored public key belongs to another key,
+	// signed by that other key with the public key omitted (world-state lookup path).  The key on record
+	// does not hash to the signer address, so the transaction must be refused.  No PRNG draw.
+	foreign := g.entropy%23 == 7
+	if foreign {
+		m = msgChoice{"send-foreignpk", chain.MsgSend(ro.Foreign.Addr, ro.Rich[0].Addr, 4321), []Signer{Single{ro.Foreign}}, "ample"}
+	}
 	spec := TxSpec{Msg: m.msg, Entropy: g.entropy, SignChain: g.ChainID}
 	var feeKind string
 	spec.Fee, feeKind = g.pickFee(r.Intn(100) < g.P.BadFee, g.reqFor(m.msg))
@@ -229,6 +236,11 @@ func (g *Gen) Next() Case {
 		default:
 			spec.Memo, sigKind = strings.Repeat("m", 300), "longmemo"
 		}
+	}
+	if foreign {
+		spec.By, rel = Single{ro.ForeignK}, "storedkey"
+		spec.OmitPk, sigKind = true, "nopk"
+		spec.SigMut, spec.SignChain, spec.Memo = 0, g.ChainID, ""
 	}
 	c := Case{Kind: fmt.Sprintf("%s/%s/%s/fee-%s", m.name, rel, sigKind, feeKind), Raw: Build(spec), Variant: "-"}
 	g.Sent = append(g.Sent, c)
@@ -395,6 +407,19 @@ func (g *Gen) Core() [][]Case {
 			blocks = append(blocks, mm[:k])
 			mm = mm[k:]
 		}
+	}
+	if g.P.Name == "c14" {
+		// the account whose STORED public key belongs to another key: a transfer out of it signed by that
+		// other key, public key omitted (world-state lookup) and supplied; and by its own key
+		var cs []Case
+		for i, sp := range []TxSpec{{By: Single{ro.ForeignK}, OmitPk: true}, {By: Single{ro.ForeignK}}, {By: Single{ro.Foreign}, OmitPk: true}, {By: Single{ro.Foreign}}} {
+			g.entropy++
+			msg := chain.MsgSend(ro.Foreign.Addr, ro.Rich[0].Addr, int64(4321+i))
+			sp.Msg, sp.Entropy, sp.SignChain = msg, g.entropy, g.ChainID
+			sp.Fee = sdk.Coins{sdk.Coin{Denom: "upokt", Amount: sdk.NewInt(g.reqFor(msg))}}
+			cs = append(cs, Case{Kind: fmt.Sprintf("core-send-foreignpk%d/storedkey/nopk/fee-equal", i), Variant: "-", Raw: Build(sp)})
+		}
+		blocks = append(blocks, cs)
 	}
 	return blocks
 }
